@@ -96,14 +96,15 @@ func NewCntDriver() *CntDriver {
 	d.owners[0] = OwnerID(util.Uint160{0x01, 0xaa})
 	d.owners[1] = OwnerID(util.Uint160{0x02, 0xbb})
 	mk := func(off byte, owner []byte, nonce byte) []byte {
-		b := make([]byte, 80)
+		b := make([]byte, max(80, 2+int(off)+4+25+8))
 		b[0] = 0x0a
 		b[1] = off
 		copy(b[2+int(off)+4:], owner)
-		b[79] = nonce
+		b[len(b)-1] = nonce
 		return b
 	}
-	d.blobs = [4][]byte{mk(0, d.owners[0], 1), mk(0, d.owners[0], 2), mk(0, d.owners[1], 3), mk(4, d.owners[0], 4)}
+	// the length byte in front of the owner: 0, 4, and 128 (the first value whose top bit is set)
+	d.blobs = [4][]byte{mk(0, d.owners[0], 1), mk(0, d.owners[0], 2), mk(128, d.owners[1], 3), mk(4, d.owners[0], 4)}
 	d.ownerOf = [4]int{0, 0, 1, 0}
 	for i, b := range d.blobs {
 		h := sha256.Sum256(b)
